@@ -234,7 +234,7 @@ def rt(tyexpr, valexpr):
     """round trip in both modes; the value must implement PartialEq + Debug"""
     return ("{ let v: %s = %s; let mut c = <AlignedCursor<maligned::A16>>::new(); v.serialize(&mut c).unwrap(); c.set_position(0); "
             "let f = <%s>::deserialize_full(&mut c).unwrap(); let e = <%s>::deserialize_eps(c.as_bytes()).unwrap(); "
-            "format!(\"full={} eps={}\", f == v, format!(\"{:?}\", e).len() > 0) }" % (tyexpr, valexpr, tyexpr, tyexpr))
+            "format!(\"full={} eps={}\", f == v, format!(\"{:?}\", e) == format!(\"{:?}\", v)) }" % (tyexpr, valexpr, tyexpr, tyexpr))
 
 
 C05_PROBES = [
@@ -290,8 +290,29 @@ C05_PROBES = [
 ]
 
 
+def derive_matrix():
+    """(shape of the definition) x (how the parameter occurs in the field type): every combination
+    is inside the grammar of the property and must compile and round-trip in both modes"""
+    uses = [("bare", "A", "Vec<u32>", "vec![1u32, 2]"), ("vec", "Vec<A>", "u32", "vec![1u32, 2]"),
+            ("opt", "Option<A>", "String", "Some(String::from(\"x\"))"), ("arr", "[A; 2]", "u16", "[1u16, 2]"),
+            ("bslice", "Box<[A]>", "u64", "vec![1u64].into_boxed_slice()"), ("nest", "Vec<Vec<A>>", "u8", "vec![vec![1u8], vec![]]"),
+            ("tup", "(A, A)", "u16", "(7u16, 1u16)")]
+    shapes = [("struct_named", "pub struct D<A> { pub n: u8, pub f: %s }", "self::D { n: 3, f: %s }"),
+              ("struct_tuple", "pub struct D<A>(pub u8, pub %s);", "self::D(3, %s)"),
+              ("enum_tuple", "pub enum D<A> { U, T(u8, %s) }", "self::D::T(3, %s)"),
+              ("enum_named", "pub enum D<A> { U, N { n: u8, f: %s } }", "self::D::N { n: 3, f: %s }")]
+    out = []
+    for (sid, decl, val) in shapes:
+        for (uid, fty, arg, fval) in uses:
+            out.append(("m_%s_%s" % (sid, uid), "compiles", None, "derive matrix: %s whose field has type %s (A := %s)" % (sid.replace("_", " "), fty, arg),
+                        "#[derive(Epserde, Debug, Clone, PartialEq)]\n" + decl % fty, rt("self::D<%s>" % arg, val % fval)))
+    return out
+
+
 def c05_probes():
     out = []
+    for (pid, expect, known, what, src, run) in derive_matrix():
+        out.append(Probe(pid, "C05", src, expect, what, known=known, run=run))
     for (pid, expect, known, what, src, run) in C05_PROBES:
         out.append(Probe(pid, "C05", src, expect, what, known=known, run=run))
     return out
